@@ -58,6 +58,40 @@ def strategy(tier):
     return _case(tier)
 
 
+EXHAUSTIVE_NOTE = ("every sign pattern {-,0,+} of the face velocity on a non-uniform 3-cell grid of the three 1-D classes (81 patterns each) and on a "
+                   "2x1 grid of the three 2-D classes (2187 patterns each); every admissible (velocity sign, direction sign) pair per face on a 2-cell "
+                   "1-D grid (7^3 patterns per class)")
+
+
+def enumerate_cases(tier):
+    import itertools
+    one = [('Grid1D', [[0.0, 0.2, 0.7, 1.0]]), ('CylindricalGrid1D', [[0.5, 0.7, 1.2, 1.5]]), ('SphericalGrid1D', [[0.0, 0.3, 0.8, 1.0]])]
+    two = [('Grid2D', [[0.0, 0.3, 1.0], [0.0, 0.5]]), ('CylindricalGrid2D', [[0.5, 0.8, 1.5], [0.0, 0.5]]), ('PolarGrid2D', [[0.5, 0.8, 1.5], [0.3, 1.5]])]
+    mag = lambda sh, k: gen.expand('pos', k, sh, 0.2, 1.5)
+    for name, faces in one + two:
+        d = dims_of(faces)
+        shapes = face_shapes(d)
+        nf = [int(np.prod(sh)) for sh in shapes]
+        g = dict(name=name, faces=faces, spacing=['random'] * len(d))
+        D = [mag(sh, 3 + i).tolist() for i, sh in enumerate(shapes)]
+        phi = gen.expand('quarter', 9, full_shape(d)).tolist()
+        for signs in itertools.product((-1.0, 0.0, 1.0), repeat=sum(nf)):
+            u, k = [], 0
+            for i, sh in enumerate(shapes):
+                u.append((mag(sh, 11 + i) * np.array(signs[k:k + nf[i]]).reshape(sh)).tolist())
+                k += nf[i]
+            w = [np.where(np.array(c) == 0, 0.0, np.sign(c)).tolist() for c in u]
+            yield dict(grid=g, D=D, u=u, w=w, phi=phi, FL='VanLeer', k5_moved=0, ugrid=dict(name=name, faces=[np.linspace(f[0], f[-1], len(f)).tolist() for f in faces]))
+    pairs = [(su, sw) for su in (-1.0, 0.0, 1.0) for sw in (-1.0, 0.0, 1.0) if not (sw == 0 and su != 0)]
+    for name, faces in [('Grid1D', [[0.0, 0.3, 1.0]]), ('CylindricalGrid1D', [[0.5, 0.8, 1.5]]), ('SphericalGrid1D', [[0.0, 0.4, 1.0]])]:
+        d = dims_of(faces)
+        g = dict(name=name, faces=faces, spacing=['random'])
+        for combo in itertools.product(pairs, repeat=3):
+            u = [[0.7 * c[0] for c in combo]]
+            w = [[1.3 * c[1] for c in combo]]
+            yield dict(grid=g, D=[[1.0, 0.5, 2.0]], u=u, w=w, phi=gen.expand('quarter', 4, full_shape(d)).tolist(), FL='Koren', k5_moved=0)
+
+
 def budget(tier):
     return 3000 if tier == "quick" else 30000
 
